@@ -1087,6 +1087,31 @@ def build_kernels(D):
               lambda a, e: bool(_prop.isdiag_csr(a[0])),
               lambda c, e: "G_isdiag_csr %s" % c[0], "bool"))
 
+    _resh = _m("reshape")
+
+    def target_shape(rng, shapes):
+        """every divisibility relation between old and new column counts:
+        all factorisations of the element count, and now and then a shape
+        that does not fit"""
+        n = shapes[0][0] * shapes[0][1]
+        if rng.random() < 0.08:
+            return (rng.randint(1, n + 1), rng.randint(1, n + 1))
+        r = rng.choice([d for d in range(1, n + 1) if n % d == 0])
+        return (r, n // r)
+    target_shape.needs_shape = True
+    K.append(("reshape_csr", ["CSR"], target_shape,
+              lambda a, e: raw(_resh.reshape_csr(a[0].copy(), e[0], e[1])),
+              lambda c, e: "vO vC (G_reshape_csr %s %s %s)" % (c[0], cnat(e[0]), cnat(e[1])), "optC"))
+    K.append(("reshape_dense", ["Dense"], target_shape,
+              lambda a, e: raw(_resh.reshape_dense(a[0], e[0], e[1])),
+              lambda c, e: "vO vD (G_reshape_dense %s %s %s)" % (c[0], cnat(e[0]), cnat(e[1])), "optD"))
+    K.append(("column_stack_csr", ["CSR"], None,
+              lambda a, e: raw(_resh.column_stack_csr(a[0].copy())),
+              lambda c, e: "vO vC (G_column_stack_csr %s)" % c[0], "optC"))
+    K.append(("column_stack_dense", ["Dense"], None,
+              lambda a, e: raw(_resh.column_stack_dense(a[0])),
+              lambda c, e: "vD (G_column_stack_dense %s)" % c[0], "D"))
+
     def clean_raws(args):
         return [raw_of(D, _dia.clean_dia(x)) for x in args]
     K.append(("isequal_dia", ["Dia", "Dia"], None,
@@ -1121,7 +1146,8 @@ def correspondence(ctx, D, rng, ncases):
     dist = ctx.cov.setdefault("input_distribution", {})
     dk = dist.setdefault("corr_kernel", {})
     dv = dist.setdefault("corr_variant", {})
-    weight = {"add_csr": 6, "isequal_dia": 3, "csr.from_dense": 2, "csr.from_dia": 2, "add_dense": 2,
+    weight = {"add_csr": 6, "isequal_dia": 3, "reshape_csr": 6, "reshape_dense": 2,
+              "column_stack_csr": 2, "csr.from_dense": 2, "csr.from_dia": 2, "add_dense": 2,
               "dia.from_dense[auto_tidyup=False]": 2}
     K = [k for k in K for _ in range(weight.get(k[0], 1))]
     for it in range(ncases):
@@ -1152,7 +1178,10 @@ def correspondence(ctx, D, rng, ncases):
             args.append(x)
             raws.append(raw_of(D, x))
             dv["%s/%s" % rep] = dv.get("%s/%s" % rep, 0) + 1
-        extra = extra_gen(rng) if extra_gen else ()
+        if extra_gen and getattr(extra_gen, "needs_shape", False):
+            extra = extra_gen(rng, shapes)
+        else:
+            extra = extra_gen(rng) if extra_gen else ()
         journal({"kernel": name, "operands": raws, "extra": list(extra)})
         try:
             impl = real(args, extra)
